@@ -1,6 +1,6 @@
 (* C06 — property theorems only (each closed by [exact]) + Print Assumptions. *)
 From Coq Require Import ZArith List.
-From Verif Require Import Common.Bytes Collect.TopN Collect.TopNPaging Collect.TopNBefore.
+From Verif Require Import Common.Bytes Collect.TopN Collect.TopNHeap Collect.TopNPaging Collect.TopNBefore.
 Import ListNotations.
 Local Open Scope Z_scope.
 
@@ -64,3 +64,14 @@ Theorem C06_sort_values_reverse : forall so id terms,
   sort_values (reverse_so so) id terms = sort_values so id terms.
 Proof. exact sort_values_reverse. Qed.
 Print Assumptions C06_sort_values_reverse.
+
+(* the heap store (container/heap's up/down written out on an array) is a priority queue *)
+Theorem C06_heap_store_is_pq : forall so,
+  (forall d h, TopNHeap.heap_ok (collector_cmp so) h ->
+     exists h', heap_push (collector_cmp so) d h = Some h' /\ TopNHeap.heap_ok (collector_cmp so) h' /\
+                Permutation.Permutation h' (d :: h)) /\
+  (forall h, TopNHeap.heap_ok (collector_cmp so) h -> h <> [] ->
+     exists x h', heap_pop (collector_cmp so) h = Some (x, h') /\ TopNHeap.heap_ok (collector_cmp so) h' /\
+                  Permutation.Permutation (x :: h') h /\ forall y, In y h' -> collector_cmp so y x <= 0).
+Proof. exact heap_store_is_pq. Qed.
+Print Assumptions C06_heap_store_is_pq.
